@@ -62,26 +62,18 @@ def regexpLeaf (s : Seg) : Except String JV :=
     | none => .error "count"
   | _ => .error "arity"
 
-def proxyTable : List Opt :=
-  [⟨"health_interval", "health_checks.active.interval", .dur⟩, ⟨"health_port", "health_checks.active.port", .int⟩,
-   ⟨"health_timeout", "health_checks.active.timeout", .dur⟩, ⟨"fail_duration", "health_checks.passive.fail_duration", .dur⟩,
-   ⟨"max_fails", "health_checks.passive.max_fails", .int⟩, ⟨"unhealthy_connection_count", "health_checks.passive.unhealthy_connection_count", .int⟩,
-   ⟨"lb_try_duration", "load_balancing.try_duration", .dur⟩, ⟨"lb_try_interval", "load_balancing.try_interval", .dur⟩,
-   ⟨"proxy_protocol", "proxy_protocol", .str⟩]
-
-/-- dotted keys become nested objects (first-occurrence order) -/
-partial def nestObj (kvs : List (String × JV)) : List (String × JV) :=
-  let heads := (kvs.map fun (k, _) => (k.splitOn ".").headD k).eraseDups
-  heads.map fun h =>
-    match kvs.lookup h with
-    | some v => (h, v)
-    | none =>
-      let sub := kvs.filterMap fun (k, v) =>
-        if k.startsWith (h ++ ".") then some ((k.drop (h.length + 1)).toString, v) else none
-      (h, JV.obj (nestObj sub))
+def proxyActive : List Opt :=
+  [⟨"health_port", "port", .int⟩, ⟨"health_interval", "interval", .dur⟩, ⟨"health_timeout", "timeout", .dur⟩]
+def proxyPassive : List Opt :=
+  [⟨"fail_duration", "fail_duration", .dur⟩, ⟨"max_fails", "max_fails", .int⟩, ⟨"unhealthy_connection_count", "unhealthy_connection_count", .int⟩]
+def proxyLB : List Opt := [⟨"lb_try_duration", "try_duration", .dur⟩, ⟨"lb_try_interval", "try_interval", .dur⟩]
+def proxyTop : List Opt := [⟨"proxy_protocol", "proxy_protocol", .str⟩]
+def proxyTable : List Opt := proxyActive ++ proxyPassive ++ proxyLB ++ proxyTop
 
 /-- the proxy handler: same-line arguments are upstream addresses; `upstream <addr…>` adds one upstream dialing all of them;
-`lb_policy <name>` selects a policy without options; the other options are a table with nested JSON paths -/
+`lb_policy <name>` selects a policy without options.  The health-check and load-balancing options live in nested objects that
+are allocated as soon as one of their options is written — so a group is present in the JSON (possibly empty: all its fields
+are `omitempty`) exactly when one of its options appears in the block, whatever its value. -/
 def proxyLeaf (s : Seg) : Except String JV := do
   if s.block.any (fun o => !o.block.isEmpty) then throw "nested"
   let ups1 := s.args.map fun a => JV.obj [("dial", .arr [.str a])]
@@ -90,18 +82,17 @@ def proxyLeaf (s : Seg) : Except String JV := do
   let pol ← match s.block.filter (·.name == "lb_policy") with
     | [] => pure []
     | [o] => match o.args with
-      | [n] => pure [("load_balancing.selection", JV.obj [("policy", .str n)])]
+      | [n] => pure [("selection", JV.obj [("policy", .str n)])]
       | _ => throw "lb_policy with options"
     | _ => throw "duplicate lb_policy"
   let rest := s.block.filter fun o => o.name != "upstream" && o.name != "lb_policy"
   let m ← parseBlock proxyTable (rest.map fun o => (o.name, o.args)) (fun _ => none)
-  let flat := tableJSON proxyTable m
-  -- load_balancing: selection first (Go struct order), then the durations
-  let lbOther := flat.filter (·.1.startsWith "load_balancing.")
-  let others := flat.filter fun kv => !kv.1.startsWith "load_balancing."
-  let hc := others.filter (·.1.startsWith "health_checks.")
-  let pp := others.filter fun kv => !kv.1.startsWith "health_checks."
-  pure (.obj (optArr "upstreams" (ups1 ++ ups2) ++ nestObj (hc ++ pol ++ lbOther ++ pp)))
+  let written (t : List Opt) : Bool := t.any fun o => (m o.name).isSome
+  let active := if written proxyActive then [("active", JV.obj (tableJSON proxyActive m))] else []
+  let passive := if written proxyPassive then [("passive", JV.obj (tableJSON proxyPassive m))] else []
+  let hc := if active.isEmpty && passive.isEmpty then [] else [("health_checks", JV.obj (active ++ passive))]
+  let lb := if written proxyLB || !pol.isEmpty then [("load_balancing", JV.obj (pol ++ tableJSON proxyLB m))] else []
+  pure (.obj (optArr "upstreams" (ups1 ++ ups2) ++ hc ++ lb ++ tableJSON proxyTop m))
 
 def segToks : Seg → List String
   | .mk n a b => n :: a ++ (if b.isEmpty then [] else ["{"] ++ goList b ++ ["}"])
